@@ -23,7 +23,7 @@ CHECKS = {
     "C12": {
         "prop": "C12",
         "level": "exploration",
-        "families": [("packaged_loop", 40, 1)],
+        "families": [("packaged_loop", 56, 1)],
         "rule": "one run = launch.launch_sim (real Simulator + AttitudeEstimator('mrp') + Logger + Core) for 30-40 simulated seconds, noise off, "
                 "with seeded true initial attitude (whole unit ball) and gyro bias (+-0.1 rad/s), initialise on/off, field inclination (+-0.9) / "
                 "declination (+-0.5) / strength, configured gravity, sim / imu / mag / logger rates (sensor periods below the simulation step "
@@ -79,7 +79,7 @@ CHECKS = {
     "C17": {
         "prop": "C17",
         "level": "exploration",
-        "families": [("hover_convergence", 40, 1)],
+        "families": [("hover_convergence", 56, 1)],
         "rule": "one run = the unmodified scripts/rdd2_sim.py node (plant, cascade, gains, allocation as wired in the script) at its nominal 100 Hz "
                 "on the simulated clock for 30 s (either cascade) from a seeded initial condition: position "
                 "within 3 m of the commanded hover point, commanded heading anywhere in (-pi, pi], tilt <= 60 deg about a random axis, initial heading within 150 deg of the commanded one, either quaternion sign, body "
